@@ -54,6 +54,10 @@
 #include <orc/orcutils.h>
 
 #include "orcinternal.h"
+#ifdef ORC_VERIF_HOOKS
+#include <stdio.h>
+#include <stdlib.h>
+#endif
 
 int orc_x86_sse_flags;
 int orc_x86_mmx_flags;
